@@ -30,7 +30,9 @@ let round_primary n = 5 mod n   (* s.state.round = 5 in the harness *)
        from a block that has > 2/3 of the precommits cast in an earlier round) classifies a
        conflict as the recorded finding round-advance-ignores-estimate;
      - the premise follows_previous of Model.step is evaluated on the voter's own last view of
-       the previous round and only TAGGED (lib/grandpa does not implement it).
+       the previous round and on the view "everything cast in that round"; a vote for which
+       neither establishes it is not a step of the protocol model: prop_ok = false inside the
+       recorded finding (lib/grandpa does not implement the rule).
    ------------------------------------------------------------------------------------------ *)
 let c22_round = 5
 (* what the vm_compute cross-check re-evaluates: tree, voters, honest voters, votes cast, guard *)
@@ -94,12 +96,27 @@ let check_multi ps nv nb bests ops obs =
     if not tolerated then tag "byz-over-tolerance";
     let det i = not (hash_conflict st.(i) Prevote) && no_tie (prevote_candidates (env i) st.(i))
                 && not (hash_conflict st.(i) Precommit) in
+    (* the premise follows_previous of Model.step for a vote of round r > 0: SOME view of round r-1
+       is completable with an estimate below the vote.  Evaluated on the two views at hand: the
+       voter's own last view of round r-1 and the view "everything cast in round r-1 so far"; when
+       neither establishes it the vote is not a step of the protocol model (prop; the recorded
+       finding round-advance-ignores-estimate is exactly this deviation of lib/grandpa) *)
+    let premise_failed = ref "" in
     let premise i g what =
-      match prev_view.(i) with
-      | None -> ()
-      | Some (v, c) ->
-        if follows_view t (unit_ws (env i)) v c g.gv_block then tag (what ^ "-follows-estimate")
-        else tag (what ^ "-ignores-estimate") in
+      let r = ridx.(i) in
+      if r > 0 then begin
+        let ws = unit_ws (env i) in
+        let ok_own = (match prev_view.(i) with
+          | Some (pr, v, c) when pr = r - 1 -> follows_view t ws v c g.gv_block
+          | _ -> false) in
+        let ok_cast = r - 1 < maxr && follows_view t ws pvs.(r - 1) pcs.(r - 1) g.gv_block in
+        if ok_own || ok_cast then tag (what ^ "-follows-estimate")
+        else begin
+          tag (what ^ "-ignores-estimate");
+          if !premise_failed = "" then
+            premise_failed := Printf.sprintf "voter %d's %s %s of round index %d is not above the estimate of a completable view of round index %d (own view and all-cast view)" i what (gv_str g) r (r - 1)
+        end
+      end in
     List.iteri (fun idx (op, ob) ->
       if not !diverged then begin
       let rest = String.sub op 1 (String.length op - 1) in
@@ -191,11 +208,12 @@ let check_multi ps nv nb bests ops obs =
           let top = List.fold_left (fun a (r, _) -> max a r) 0 fin_rounds.(i) in
           let top_blk = (try List.assoc top fin_rounds.(i) with Not_found -> st.(i).s_head) in
           if top > ridx.(i) then tag "round-jump";
+          let left_round = ridx.(i) in
           st.(i) <- { st.(i) with s_head = top_blk };
           ridx.(i) <- top;
           let expect = Printf.sprintf "r%x.h%s" (ridx.(i) + 1) (hex_of_nat st.(i).s_head) in
           if ob <> expect then begin fail_eq (Printf.sprintf "op %d %s: go=%s model=%s" idx op ob expect); diverged := true end;
-          prev_view.(i) <- Some (spec_votes st.(i) Prevote, spec_votes st.(i) Precommit);
+          prev_view.(i) <- Some (left_round, spec_votes st.(i) Prevote, spec_votes st.(i) Precommit);
           st.(i) <- { s_pv = []; s_pc = []; s_pv_eq = []; s_pc_eq = []; s_head = st.(i).s_head };
           ridx.(i) <- ridx.(i) + 1;
           best_eff.(i) <- best_of i;
@@ -288,6 +306,10 @@ let check_multi ps nv nb bests ops obs =
         if guard then finding := "round-advance-ignores-estimate";
         tag "conflict"
       end else tag "conflict-with-byz-over-tolerance"
+    end;
+    if !premise_failed <> "" && !prop then begin
+      prop := false; finding := "round-advance-ignores-estimate";
+      if !detail = "" then detail := !premise_failed
     end;
     let tl = Hashtbl.fold (fun k () acc -> k :: acc) tags [] in
     { prop_ok = !prop; model_eq = !prop && !eq; nontrivial = (fin_blocks <> []); finding = !finding;
